@@ -124,4 +124,27 @@ theorem C10_source_skeletons :
     Gen.Skel.Server_streamLTXSnapshot = Expected.Skel.Server_streamLTXSnapshot :=
   ⟨rfl, rfl, rfl, rfl⟩
 
+set_option maxRecDepth 20000 in
+/-- A snapshot is read under SQLite's read locks from a position captured under the write lock,
+    and is not returned unless its checksum is that position's — facts proved by `decide` about the
+    skeleton of `WriteSnapshotTo` regenerated from db.go: PENDING and SHARED are taken first; in
+    WAL mode the position and the WAL frame offsets are read between `write.Lock` and
+    `write.Unlock`; the five WAL read locks are held before the database file is opened; the
+    comparison of the computed checksum with the position's comes before the encoder is closed and
+    before the one successful return. -/
+theorem C10_snapshot_reads_under_locks_and_checks_its_checksum :
+    let ix (sk : List (String × String)) (x : String × String) (d : Nat) := (sk.findIdx? (· == x)).getD d
+    let t := Gen.Skel.DB_WriteSnapshotTo
+    ix t ("call", "gs.pending.RLock") 1000 < ix t ("call", "gs.shared.RLock") 0 ∧
+    ix t ("call", "gs.shared.RLock") 1000 < ix t ("call", "gs.write.Lock") 0 ∧
+    ix t ("call", "gs.write.Lock") 1000 < ix t ("call", "db.Pos") 0 ∧
+    ix t ("call", "db.Pos") 1000 < ix t ("call", "gs.write.Unlock") 0 ∧
+    (t.filter (· == ("call", "db.Pos"))).length = 1 ∧
+    ix t ("call", "gs.read0.RLock") 1000 < ix t ("call", "db.os.Open") 0 ∧
+    ix t ("call", "gs.read4.RLock") 1000 < ix t ("call", "db.os.Open") 0 ∧
+    ix t ("if", "postApplyChecksum != pos.PostApplyChecksum") 1000 < ix t ("call", "enc.Close") 0 ∧
+    ix t ("call", "enc.Close") 1000 < ix t ("return", "return enc.Header(), enc.Trailer(), nil") 0 ∧
+    (t.filter (· == ("return", "return enc.Header(), enc.Trailer(), nil"))).length = 1 := by
+  decide
+
 end LiteFSVerif.C10
